@@ -3,6 +3,7 @@
 From Coq Require Import ZArith List.
 From Verif Require Import Lib.Params Lib.Octets Spec.Edwards Model.Outcome Model.BabyJub
   Proofs.CompressProofs.
+From Verif Require Gen.BigIntRoutines Proofs.BigIntEqCompress.
 Local Open Scope Z_scope.
 
 (* the 32-byte encoding is y little-endian with bit 255 set exactly when x > (q-1)/2 *)
@@ -42,6 +43,22 @@ Proof. exact decompress_rejects_no_point. Qed.
 Example C06_nonvacuous : on_curveb q ca cd (B8x, B8y) = true /\ 0 <= B8x < q /\ 0 <= B8y < q.
 Proof. vm_compute. repeat split; discriminate. Qed.
 
+(* TRANSLATOR TIE: tools/bigintgen regenerates value-level Gallina from the Go source of these
+   functions at every run (Gen/BigIntRoutines.v); it equals the hand-written model the theorems
+   above are about, for all arguments.  An edit of the Go function breaks this. *)
+Theorem C06_model_is_the_source :
+  (forall c, BigIntRoutines.babyjub_PointCoordSign c = PointCoordSign c) /\
+  (forall sign y, BigIntRoutines.babyjub_PackSignY sign y = PackSignY sign y) /\
+  (forall b, BigIntRoutines.babyjub_UnpackSignY b = UnpackSignY b) /\
+  (forall p, BigIntRoutines.babyjub_Point_Compress p = Compress p) /\
+  (forall sign y, BigIntRoutines.babyjub_PointFromSignAndY sign y = PointFromSignAndY sign y) /\
+  (forall b, BigIntRoutines.babyjub_Point_Decompress b = Decompress b).
+Proof.
+  exact (conj BigIntEqCompress.gen_babyjub_PointCoordSign_eq (conj BigIntEqCompress.gen_babyjub_PackSignY_eq
+        (conj BigIntEqCompress.gen_babyjub_UnpackSignY_eq (conj BigIntEqCompress.gen_babyjub_Point_Compress_eq
+        (conj BigIntEqCompress.gen_babyjub_PointFromSignAndY_eq BigIntEqCompress.gen_babyjub_Point_Decompress_eq))))).
+Qed.
+
 Print Assumptions C06_compress_spec.
 Print Assumptions C06_decompress_compress.
 Print Assumptions C06_decompress_sound.
@@ -49,3 +66,4 @@ Print Assumptions C06_decompress_ok_iff.
 Print Assumptions C06_decompress_total.
 Print Assumptions C06_rejects_big_y.
 Print Assumptions C06_rejects_no_point.
+Print Assumptions C06_model_is_the_source.
